@@ -200,6 +200,69 @@ class VC:
         finally:
             self.I.frames.pop()
 
+    # ---- Hoare-style loop rule: run the statements before / inside / after the k-th top-level loop of the real function
+    def _loop_parts(self, qual, loop=0):
+        import ast as _ast
+        fi = self.repo.lookup(qual)
+        self.repo.touch(fi)
+        body = [s for s in fi.node.body if not (isinstance(s, _ast.Expr) and isinstance(getattr(s, "value", None), _ast.Constant))]
+        idxs = [i for i, s in enumerate(body) if isinstance(s, (_ast.For, _ast.While))]
+        if loop >= len(idxs):
+            raise KeyError(f"{qual}: no top-level loop number {loop}")
+        i = idxs[loop]
+        start = idxs[loop - 1] + 1 if loop > 0 else 0
+        return fi, body[start:i], body[i], body[i + 1:(idxs[loop + 1] if loop + 1 < len(idxs) else len(body))]
+
+    def _run_stmts(self, fi, stmts, locals_):
+        from .interp import Frame, ReturnEx, ContinueEx, BreakEx
+        fr = Frame(fi, locals_, module=fi.module, cls_ctx=fi.cls)
+        self.I.frames.append(fr)
+        try:
+            try:
+                self.I.exec_block(stmts)
+            except ContinueEx:
+                return "continue", None
+            except BreakEx:
+                return "break", None
+            except ReturnEx as r:
+                return "return", r.value
+            return "fallthrough", None
+        finally:
+            self.I.frames.pop()
+
+    def run_prefix(self, qual, locals_, loop=0):
+        """execute the statements of the real function that precede its loop (refusals surface as RaiseEx); `locals_` holds the
+        arguments and is updated in place with the locals the prefix defines"""
+        fi, pre, _, _ = self._loop_parts(qual, loop)
+        a = fi.node.args
+        for p, d in zip(reversed(a.args), reversed(a.defaults)):
+            if p.arg not in locals_:
+                self.I.frames.append(__import__("engine.interp", fromlist=["Frame"]).Frame(fi, {}, module=fi.module))
+                try:
+                    locals_[p.arg] = self.I.eval(d)
+                finally:
+                    self.I.frames.pop()
+        for p, d in zip(a.kwonlyargs, a.kw_defaults):
+            if p.arg not in locals_ and d is not None:
+                locals_[p.arg] = self.I.eval(d) if not isinstance(d, __import__("ast").Constant) else d.value
+        return self._run_stmts(fi, pre, locals_)
+
+    def run_loop_body(self, qual, locals_, item, loop=0):
+        """one iteration of the loop from the state `locals_` with the loop target bound to `item`"""
+        fi, _, lp, _ = self._loop_parts(qual, loop)
+        from .interp import Frame
+        fr = Frame(fi, locals_, module=fi.module, cls_ctx=fi.cls)
+        self.I.frames.append(fr)
+        try:
+            self.I.assign(lp.target, item)
+        finally:
+            self.I.frames.pop()
+        return self._run_stmts(fi, lp.body, locals_)
+
+    def run_suffix(self, qual, locals_, loop=0):
+        fi, _, _, post = self._loop_parts(qual, loop)
+        return self._run_stmts(fi, post, locals_)
+
     def raises(self, thunk):
         """run thunk(); returns (exception name | None, value)"""
         try:
